@@ -123,7 +123,11 @@ pub fn run(seed: u64, ntraces: usize) {
                 if variant == 3 { payload[0] = 9; }                                          // unknown command
                 msg_counter += 1;
                 let id = format!("m-{}", msg_counter).into_bytes();
-                let (chain, src) = match variant { 4 => (b"ethereum".to_vec(), gaddr.clone()), 5 => (gchain.clone(), b"axelar1attacker".to_vec()), _ => (gchain.clone(), gaddr.clone()) };
+                let (chain, src) = match variant { 4 => (b"ethereum".to_vec(), gaddr.clone()), 5 => (gchain.clone(), b"axelar1attacker".to_vec()),
+                    // the same bytes split elsewhere: chain ++ address is equal, chain and address are not
+                    11 => { let mut ch = gchain.clone(); ch.extend_from_slice(&gaddr[..3]); (ch, gaddr[3..].to_vec()) },
+                    12 => { let k = gchain.len() - 2; let mut a2 = gchain[k..].to_vec(); a2.extend_from_slice(&gaddr); (gchain[..k].to_vec(), a2) },
+                    _ => (gchain.clone(), gaddr.clone()) };
                 let approved_payload = if variant == 6 { let mut q = payload.clone(); let n = q.len() - 1; q[n] ^= 1; q } else { payload.clone() };
                 let contract = if variant == 7 { u1.clone() } else { gov.clone() };
                 if variant != 8 {
